@@ -64,6 +64,7 @@ Definition wrap_s (w z : Z) : Z :=
 Record env : Type := mk_env {
   fmt64 : Z -> string;            (* strconv.FormatFloat(f,'g',-1,64) *)
   fmt32 : Z -> string;            (* strconv.FormatFloat(f,'g',-1,32), f a float32 value *)
+  fmt6 : Z -> string;             (* how MySQL's text protocol prints a FLOAT column: 6 significant digits *)
   parsef : string -> option Z;    (* strconv.ParseFloat(s,64); None = error *)
   round32 : Z -> Z;               (* float64(float32(f)) *)
   fmt_sec : Z -> string;          (* t.Format("2006-01-02 15:04:05") *)
@@ -79,7 +80,9 @@ Definition tzero : Z := -62135596800000000000.         (* time.Time{} in Unix na
 Inductive custom : Type :=
 | CValuer   (* implements driver.Valuer (value receiver) and sql.Scanner (pointer receiver) *)
 | CBin      (* Marshal() / Unmarshal(), used with the binary tag *)
-| CText.    (* encoding.TextMarshaler / TextUnmarshaler, used with the string tag *)
+| CText     (* encoding.TextMarshaler / TextUnmarshaler, used with the string tag *)
+| CNull     (* sql.NullString: Valuer + Scanner that represents NULL by itself; payload [GBytes o], None = invalid *)
+| CUuid.    (* a [16]byte with Value() = its bytes and Scan copying into it (internal/testfixtures.CustomType) *)
 
 Inductive base : Type :=
 | BInt (w : Z) | BUint (w : Z)       (* w = 8,16,32,64; Go int/uint are 64 bits wide here *)
@@ -91,7 +94,7 @@ Inductive tag : Type := TNone | TBinary | TString | TJson | TImplicitNull.
 Record desc : Type := mk_desc { d_base : base; d_ptr : bool; d_tag : tag }.
 
 Definition custom_eqb (a b : custom) : bool :=
-  match a, b with CValuer, CValuer | CBin, CBin | CText, CText => true | _, _ => false end.
+  match a, b with CValuer, CValuer | CBin, CBin | CText, CText | CNull, CNull | CUuid, CUuid => true | _, _ => false end.
 
 Definition base_eqb (a b : base) : bool :=
   match a, b with
@@ -113,6 +116,18 @@ Inductive fval : Type := FNil | FVal (g : gval).   (* FNil = nil pointer *)
 (** A dynamically typed Go value (what reflect.ValueOf sees in a filter). *)
 Inductive dyn : Type := DynNil | Dyn (b : base) (ptr : bool) (v : fval).
 
+(** copy(u[:], b) into a fresh [16]byte *)
+Fixpoint take_pad (n : nat) (s : string) : string :=
+  match n with
+  | O => ""
+  | S n' => match s with
+            | EmptyString => String Ascii.zero (take_pad n' "")
+            | String c s' => String c (take_pad n' s')
+            end
+  end.
+Definition fit16 (s : string) : string := take_pad 16 s.
+Definition zero16 : string := fit16 "".
+
 Definition zero_of (b : base) : gval :=
   match b with
   | BInt _ | BUint _ => GInt 0
@@ -121,6 +136,8 @@ Definition zero_of (b : base) : gval :=
   | BStr => GStr ""
   | BBytes => GBytes None
   | BTime => GTime tzero
+  | BCustom CNull => GBytes None
+  | BCustom CUuid => GCust zero16
   | BCustom _ => GCust ""
   end.
 
@@ -200,11 +217,14 @@ Definition valuer (d : desc) (x : dyn) : dval :=
   | DynNil => DNull
   | Dyn b ptr FNil => DNull
   | Dyn b ptr (FVal g) =>
-      match g with
-      | GBytes None => DNull
-      | _ =>
+      match b, g with
+      | BBytes, GBytes None => if ptr then DBytes "" else DNull   (* a non-nil pointer to a nil slice passes []byte(nil) on *)
+      | _, GBytes None => DNull
+      | _, _ =>
         match b, g with
         | BCustom CValuer, GCust s => DBytes s
+        | BCustom CUuid, GCust s => DBytes s
+        | BCustom CNull, GBytes (Some s) => DStr s
         | _, _ =>
           match d_tag d with
           | TBinary => match b, g with BCustom CBin, GCust s => DBytes (enc_bin s) | _, _ => plain b g end
@@ -350,6 +370,17 @@ Definition scanner_gen (fix24 : bool) (e : env) (d : desc) (s : src) : res fval 
       | SNull => Ok (if d_ptr d then FNil else FVal (GCust ""))
       | SStr x | SBytes x => Ok (FVal (GCust x))
       | _ => Err
+      end
+  | BCustom CUuid =>
+      match s with
+      | SNull => Ok (if d_ptr d then FNil else FVal (GCust zero16))
+      | SStr x | SBytes x => Ok (FVal (GCust (fit16 x)))
+      | _ => Err
+      end
+  | BCustom CNull =>
+      match s with
+      | SNull => Ok (if d_ptr d then FNil else FVal (GBytes None))
+      | _ => rbind (scan_string e s) (fun x => Ok (FVal (GBytes (Some x))))
       end
   | b =>
       match s with
@@ -513,7 +544,7 @@ Fixpoint filter_from_proto (e : env) (t : table) (p : list (string * pfield)) : 
 
     [col] is the MySQL column a field is stored in; [proto] which path the value takes back. *)
 Inductive sqlcol : Type :=
-| ColInt (w : Z) (unsigned : bool)     (* TINYINT 8 / SMALLINT 16 / INT 32 (MEDIUMINT decodes as int32) / BIGINT 64 *)
+| ColInt (w : Z) (unsigned : bool)     (* TINYINT 8 / SMALLINT 16 / MEDIUMINT 24 / INT 32 / BIGINT 64 *)
 | ColFloat | ColDouble
 | ColVarchar                           (* VARCHAR / CHAR / VARBINARY: binlog hands back a string *)
 | ColBlob                              (* BLOB / TEXT: binlog hands back []byte *)
@@ -546,6 +577,11 @@ Definition storable (c : sqlcol) (v : dval) : bool :=
   | _, _ => false
   end.
 
+(** MySQL's text protocol prints a FLOAT column with 6 significant digits; the text gives the stored
+    float32 back exactly for some values only. *)
+Definition exact6 (e : env) (f : Z) : bool :=
+  match parsef e (fmt6 e f) with Some f' => Z.eqb (round32 e f') f | None => false end.
+
 Definition repr (e : env) (c : sqlcol) (p : path) (v : dval) : option src :=
   match p with PProto => proto_src v | _ =>
   if negb (storable c v) then None else
@@ -557,7 +593,7 @@ Definition repr (e : env) (c : sqlcol) (p : path) (v : dval) : option src :=
       | ColInt w u =>
           match p with
           | PText => Some (SBytes (print_Z z))
-          | PBinlog => Some (SInt w (wrap_s w z))
+          | PBinlog => Some (SInt (if Z.eqb w 24 then 32 else w) (wrap_s w z))   (* MEDIUMINT: int32, sign-extended from 24 bits *)
           | _ => Some (SInt 64 z)
           end
       | ColVarchar => Some (match p with PBinlog => SStr (print_Z z) | _ => SBytes (print_Z z) end)
@@ -570,7 +606,7 @@ Definition repr (e : env) (c : sqlcol) (p : path) (v : dval) : option src :=
       | ColInt w _ =>
           match p with
           | PText => Some (SBytes (print_Z z))
-          | PBinlog => Some (SInt w z)
+          | PBinlog => Some (SInt (if Z.eqb w 24 then 32 else w) z)
           | _ => Some (SInt 64 z)
           end
       | _ => None
@@ -579,7 +615,7 @@ Definition repr (e : env) (c : sqlcol) (p : path) (v : dval) : option src :=
       match c, p with
       | ColDouble, PText => Some (SBytes (fmt64 e f))
       | ColDouble, _ => Some (SF64 f)
-      | ColFloat, PText => None            (* MySQL prints FLOAT with 6 significant digits: outside the model *)
+      | ColFloat, PText => if exact6 e f then Some (SBytes (fmt6 e f)) else None   (* 6 significant digits: faithful only when they determine the float32 *)
       | ColFloat, _ => if Z.eqb (round32 e f) f then Some (SF32 f) else None
       | _, _ => None
       end
@@ -613,7 +649,7 @@ Fixpoint slookup {A} (k : string) (l : list (string * A)) : option A :=
   | (k', v) :: t => if String.eqb k k' then Some v else slookup k t
   end.
 
-Record ftab_entry := mk_f { f_t64 : string; f_t32 : string; f_r32 : Z }.
+Record ftab_entry := mk_f { f_t64 : string; f_t32 : string; f_t6 : string; f_r32 : Z }.
 Record ttab_entry := mk_t { t_sec : string; t_us : string; t_rfc : string }.
 
 Definition env_of_tables (ft : list (Z * ftab_entry)) (pf : list (string * option Z))
@@ -621,6 +657,7 @@ Definition env_of_tables (ft : list (Z * ftab_entry)) (pf : list (string * optio
   mk_env
     (fun f => match zlookup f ft with Some x => f_t64 x | None => "?" end)
     (fun f => match zlookup f ft with Some x => f_t32 x | None => "?" end)
+    (fun f => match zlookup f ft with Some x => f_t6 x | None => "?" end)
     (fun s => match slookup s pf with Some o => o | None => None end)
     (fun f => match zlookup f ft with Some x => f_r32 x | None => f end)
     (fun t => match zlookup t tt with Some x => t_sec x | None => "?" end)
@@ -767,6 +804,8 @@ Open Scope Z_scope.
 
 Definition width_ok (w : Z) : bool := Z.eqb w 8 || Z.eqb w 16 || Z.eqb w 32 || Z.eqb w 64.
 
+Definition colwidth_ok (w : Z) : bool := width_ok w || Z.eqb w 24.
+
 Definition tag_eqb (a b : tag) : bool :=
   match a, b with
   | TNone, TNone | TBinary, TBinary | TString, TString | TJson, TJson | TImplicitNull, TImplicitNull => true
@@ -776,9 +815,10 @@ Definition tag_eqb (a b : tag) : bool :=
 (** Descriptors sqlgen registers (ValidateSQLType accepts) and the model covers. *)
 Definition desc_ok (d : desc) : bool :=
   (match d_base d, d_tag d with
-   | BCustom CValuer, TNone | BCustom CBin, TBinary | BCustom CText, TString => true
+   | BCustom CValuer, TNone | BCustom CBin, TBinary | BCustom CText, TString
+   | BCustom CNull, TNone | BCustom CUuid, TNone => true
    | BCustom _, _ => false
-   | BBytes, (TNone | TBinary | TImplicitNull) => negb (d_ptr d)
+   | BBytes, (TNone | TBinary | TImplicitNull) => true
    | BBytes, _ => false
    | BTime, (TNone | TImplicitNull) => true
    | BTime, _ => false
@@ -797,12 +837,22 @@ Definition gval_ok (e : env) (b : base) (g : gval) : bool :=
   match b, g with
   | (BInt _ | BUint _), GInt z => in_kind b z
   | BF32, GFloat f => Z.eqb (round32 e f) f
+  | BCustom CNull, GBytes _ => true
+  | BCustom CNull, _ => false
+  | BCustom CUuid, GCust s => Nat.eqb (String.length s) 16
   | BF64, GFloat _ | BBool, GBool _ | BStr, GStr _ | BTime, GTime _ | BCustom _, GCust _ | BBytes, GBytes _ => true
   | _, _ => false
   end.
 
 Definition fval_ok (e : env) (d : desc) (x : fval) : bool :=
-  match x with FNil => d_ptr d | FVal g => gval_ok e (d_base d) g end.
+  match x with
+  | FNil => d_ptr d
+  | FVal g =>
+      gval_ok e (d_base d) g &&
+      (* a non-nil *[]byte pointing at a nil slice comes back pointing at an empty one, a non-nil
+         *sql.NullString that is not Valid comes back as a nil pointer *)
+      negb (d_ptr d && match d_base d, g with (BBytes | BCustom CNull), GBytes None => true | _, _ => false end)
+  end.
 
 (** Column types a field may be stored in.  An integer column has the field's signedness; a FLOAT
     column holds float32 fields only; a binary-tagged Marshal type does not live in a VARBINARY column
@@ -813,7 +863,11 @@ Definition col_matches (d : desc) (c : sqlcol) (p : path) : bool :=
   | _ =>
       match c with
       | ColInt w u =>
-          width_ok w && match d_base d with BInt _ => negb u | BUint _ => u | BBool => true | _ => false end
+          colwidth_ok w &&
+          (* MEDIUMINT UNSIGNED comes back from the binlog decoder as an int32 sign-extended from 24 bits:
+             values from 2^23 cannot be told from negative ones without the column's metadata *)
+          negb (u && Z.eqb w 24 && match p with PBinlog => true | _ => false end) &&
+          match d_base d with BInt _ => negb u | BUint _ => u | BBool => true | _ => false end
       | ColFloat => match d_base d with BF32 => true | _ => false end
       | ColVarchar =>
           match d_base d, p with BCustom CBin, PBinlog => false | _, _ => true end
